@@ -26,7 +26,7 @@ EXIT_LINES = ["M117 leaving"]
 def scen(w, steps=2):
     plugin = pu.make_plugin(w, exit_=EXIT_SCRIPT, extended=[{"gcode": "M204", "mode": "merge", "description": ""}])
     Events = pu.events(w)
-    plugin.on_event(Events.PRINT_STARTED, None)
+    pu.fire(plugin, "PRINT_STARTED")
     pipe = pl.Pipe(w, plugin=plugin)
     pipe.add_region(pl.fresh_region(w, "rect", "r0"))
     pipe.prologue()
@@ -34,6 +34,15 @@ def scen(w, steps=2):
     active = True
     episode = False
     deferred = None
+    if w.flag("earlier-episode"):
+        rec = pipe.begin("G1 X%s Y%s" % (w.key(w.real("e1_X")), w.key(w.real("e1_Y"))))
+        w.assume(rec.dest_inside)
+        pipe.finish(catch=False)
+        rec = pipe.begin("G1 X%s Y%s" % (w.key(w.real("e2_X")), w.key(w.real("e2_Y"))))
+        w.assume(alg.not_(rec.dest_inside))
+        rec = pipe.finish(catch=False)
+        w.check(EXIT_LINES[0] in rec.emitted, "earlier-episode-exit-script", "%r" % (rec.emitted,))
+        w.cover("earlier-episode")
     if w.flag("enter"):
         rec = pipe.begin("G1 X%s Y%s" % (w.key(w.real("in_X")), w.key(w.real("in_Y"))))
         w.assume(rec.dest_inside)
@@ -52,7 +61,7 @@ def scen(w, steps=2):
             name = (END_EVENTS + OTHER_EVENTS)[sel - len(HOOKS)]
             w.cover("event-" + name)
             pipe.program.append("<event %s>" % name)
-            plugin.on_event(getattr(Events, name), None)
+            pu.fire(plugin, name)
             if name in END_EVENTS:
                 active = False
             continue
@@ -109,6 +118,6 @@ META = {
 
 def plan(tier):
     steps = 3 if tier == "quick" else 4
-    cov = ["cleanup"] + ["hook-%s-%s" % h for h in HOOKS] + ["event-" + e for e in END_EVENTS + OTHER_EVENTS]
+    cov = ["cleanup", "earlier-episode"] + ["hook-%s-%s" % h for h in HOOKS] + ["event-" + e for e in END_EVENTS + OTHER_EVENTS]
     return [Scenario("hooks", scen, params={"steps": steps}, cover=cov,
                      bounds={"hook invocations / events after the program": steps})]
